@@ -370,6 +370,7 @@ fn make_input(rng: &mut Rng, max_nest: usize) -> Input {
         0..=9 => return from_made("truncated", more::truncated(rng)),
         10..=20 => return from_made("infer", more::infer(rng)),
         21..=25 => return from_made("chains", more::chains(rng, max_nest)),
+        26..=33 => return from_made("escapes", more::escapes(rng)),
         _ => {}
     }
     match rng.below(100) {
